@@ -20,6 +20,8 @@ def run(ctx, R, tier):
     ungated(F, R, rule='B.C05.speed-ungated')
     torn(F, R)
     # a tween scheduled on another clock sees that clock's time of THIS buffer: clocks are advanced in creation order
+    from .c07 import write_unconditional
+    write_unconditional(F, R, rule='B.C05.cmd', floor=3, fn_filter=lambda q: q.startswith('clock::handle::ClockHandle::'))
     from .c19 import cmp_ as clock_time_order
     clock_time_order(F, R)
     from .c19 import speed_units
@@ -190,6 +192,12 @@ def start_time_rule(F, R):
     """StartTime::update, the countdown every sound / track start uses: a delay is reduced by the elapsed time and becomes
     Immediate exactly when nothing remains; a clock time becomes Immediate exactly when the clock says Now, stays pending on
     Later, and reports "will never start" (true) exactly on Never; every other path returns false."""
+    fb = F.body('<start_time::StartTime as std::convert::From<clock::time::ClockTime>>::from')
+    if R.check(fb is not None, 'B.C05.start', 'anchor:from', 'From<ClockTime> for StartTime not found'):
+        rets = [str(p.ret) for p in explore(fb) if p.end == 'return']
+        R.check(bool(rets) and all(r.startswith('start_time::StartTime::ClockTime(') for r in rets), 'B.C05.start', 'from-clock-time',
+                'a ClockTime converted into a StartTime becomes %s: the clock (its existence, whether it is ticking) is no longer consulted' % [r[:60] for r in rets],
+                detail={'returns': [r[:80] for r in rets]})
     b = F.body('start_time::StartTime::update')
     if not R.check(b is not None, 'B.C05.start', 'anchor', 'StartTime::update not found'):
         return
